@@ -197,6 +197,72 @@ def compare_siblings(rep, fb, r_tests, r_updates, site_side='P'):
 
 
 
+def queue_rotations(rep, fb, rule):
+    """emitted inlines that rotate a queue (queue?tmpE ... queue!tmpE) and may drop elements run exactly len(queue) times"""
+    n = 0
+    seen_src = set()
+    for f in sorted(fb.funcs.values(), key=lambda f_: (f_.file, f_.line)):
+        if not f.file.endswith('ChartToPromela.cpp') or not f.d.get('body'):
+            continue
+        try:
+            t, ls = literal_text(f, None)
+        except Exception:
+            continue
+        for idx, (line, src) in enumerate(ls):
+            if not re.search(r'\bqueue\?tmpE', line) or src in seen_src:
+                continue
+            seen_src.add(src)
+            # the guard of the enclosing do-loop: nearest preceding `:: <guard> -> {`
+            guard = None
+            for l2, s2 in reversed(ls[max(0, idx - 6):idx]):
+                m_ = re.match(r'\s*::\s*(.*?)\s*->\s*\{', l2)
+                if m_:
+                    guard = (m_.group(1), s2)
+                    break
+            if guard is None:
+                continue
+            n += 1
+            live = bool(re.search(r'\blen\(queue\)', guard[0]))
+            rep.check(not live, rule, '%s|rotation at line %s' % (f.q.split('::')[-1], src), 'src/uscxml/transform/ChartToPromela.cpp:%s' % guard[1],
+                      'the rotation loop is bounded by `%s`%s' % (guard[0], '' if not live else ': len(queue) shrinks while matching events are dropped, so the rotation stops early and leaves the surviving events in another order (the sibling inline counts down from the initial length)'))
+    rep.minimum(rule, n, 2, 'queue rotation inlines in the Promela generator')
+
+
+def identifier_renames(rep, fb, rule):
+    """the rename of system variables in chart code works on identifiers, not on substrings"""
+    n = 0
+    for f in fb.funcs.values():
+        if not f.file.startswith('src/uscxml/transform/') or f.q.split('::')[-1] != 'sanitizeCode':
+            continue
+        n += 1
+        plain = []
+        for c in f.walk():
+            if c['k'] == 'CallExpr' and c.get('callee', {}).get('q', '').split('::')[-1] in ('replace_all', 'replace_first', 'ireplace_all'):
+                lits = [x.get('str') for x in sub(c) if x['k'] == 'StringLiteral']
+                if lits and re.match(r'^_[A-Za-z]+$', lits[0] or ''):
+                    plain.append((c, lits[0]))
+        rep.check(not plain, rule, '%s::sanitizeCode' % f.q.split('::')[-2], locstr(plain[0][0]) if plain else f.where(), 'system variables in chart code are renamed %s' % (
+            'as whole identifiers' if not plain else 'by replacing the SUBSTRING "%s" everywhere: `user%s == 1` silently refers to another, auto-declared variable than <data id="user%s">' % (plain[0][1], plain[0][1], plain[0][1])))
+    rep.minimum(rule, n, 2, 'sanitizeCode functions of the Promela back-end')
+
+
+def time_advances(rep, fb, rule):
+    """delays are relative to the time an event was sent: the model advances time whenever it uses delays, also with one machine"""
+    sites = []
+    for f in fb.funcs.values():
+        if not f.file.endswith('ChartToPromela.cpp') or not f.d.get('body'):
+            continue
+        for n in f.walk():
+            if n['k'] == 'IfStmt' and any(x['k'] == 'StringLiteral' and 'scheduleMachines();' in (x.get('str') or '') for x in sub(n['c'][1])):
+                cond = n['c'][0]
+                by_count = any(x['k'] == 'MemberExpr' and x['ref'].get('name') == '_machinesAll' for x in sub(cond)) and any(x.get('callee', {}).get('q', '').split('::')[-1] == 'size' for x in sub(cond))
+                sites.append((f, n, by_count))
+    for f, n, by_count in sites:
+        rep.check(not by_count, rule, '%s|scheduleMachines at line %d' % (f.q.split('::')[-1], n['loc'][1]), locstr(n), 'the call that advances time (scheduleMachines -> advanceTime) is emitted %s' % (
+            'whenever delays are used' if not by_count else 'only for MORE THAN ONE machine: in a single-machine model waiting events keep their original delay, so e1(500) sending e2(300) is followed by e2 before e3(700) although e3 is due first'))
+    rep.minimum(rule, len(sites), 1, 'emission sites of scheduleMachines()')
+
+
 MUTATORS = ('append', 'replace', 'erase', 'insert', 'push_back', 'clear', 'assign', 'resize', 'swap', 'pop_back', 'operator+=', 'operator=')
 
 
@@ -276,6 +342,9 @@ def run(rep, tier):
     rep.rule('R06.4', 'set updates agree with the C sibling: the multiset of (operation, destination, source) over OR / AND / AND_NOT / COPY / CLEAR is the same in both emitted step functions (accepted differences are listed with reasons)')
     rep.rule('R06.5', 'closure loops visit every member: each emitted loop of the entry-set phase that adds the ancestors of the members of a set (deep completion, targets of initial and history default transitions) neither breaks after the first member nor leaves at the first non-member (same clause as C04 R04.9 for the C sibling)')
     rep.rule('R06.6', 'static event-descriptor resolution: the prefix trie registers every event name and a prefix lookup returns every name below the prefix (rules shared with C12 R12.5 / R12.6)')
+    rep.rule('R06.10', 'delayed events keep their order in time: the emitted model advances time (subtracting the elapsed delay from the waiting events) whenever the chart uses delays, whatever the number of machines')
+    rep.rule('R06.9', 'chart code keeps its identifiers: the rename of the system variables (_name, _sessionid) in conditions, expressions and scripts replaces whole identifiers only, so a user variable that merely contains such a name is the same variable in its declaration and in its uses')
+    rep.rule('R06.8', 'queue rotations keep the order of what they keep: an emitted inline that takes every element off a queue and re-enqueues the survivors iterates exactly the initial length (a counter set from len(queue) before the loop), not `index < len(queue)` re-evaluated while elements are dropped')
     rep.rule('R06.7', 'literal numbering is injective: the loop that makes a macro name unique tests the same string that is then inserted into the name set and handed out (no case folding or other rewrite between the test and the insertion)')
     rep.assume('equality of the spin model\'s executions with the interpreter\'s is not decided; executable content, event/string numbering, nested machines and timers are not analysed')
     rep.assume('the emitted C step function is the reference only in the sense of "sibling": C04 checks it against the engines')
@@ -398,5 +467,11 @@ def run(rep, tier):
     # ---- R06.6
     from . import C12
     C12.trie_rules(rep, fb, 'R06.6', 'R06.6')
+    # ---- R06.10
+    time_advances(rep, fb, 'R06.10')
+    # ---- R06.9
+    identifier_renames(rep, facts.FactBase(TUS + ['src/uscxml/transform/promela/PromelaCodeAnalyzer.cpp']), 'R06.9')
+    # ---- R06.8
+    queue_rotations(rep, fb, 'R06.8')
     # ---- R06.7
     unique_names(rep, facts.FactBase(TUS + ['src/uscxml/transform/promela/PromelaCodeAnalyzer.cpp']), 'R06.7')
